@@ -69,6 +69,12 @@ def build(rng, u, reg, root, i):
             break
     d = dirs.PelDir(os.path.join(root, "d%d" % i))
     d.extend(ents)
+    if rng.random() < 0.5:
+        # a sub-directory named after one of the entry ids, sorting before the PEL files: look-ups go to FILES
+        e = rng.choice(ents)
+        os.makedirs(os.path.join(d.root, "0000_%08X_extracted" % e.pel.eid), exist_ok=True)
+        with open(os.path.join(d.root, "0000_%08X_extracted" % e.pel.eid, "readme"), "w") as f:
+            f.write("x")
     if rng.random() < 0.4:      # junk and a nested directory must not matter
         d.add(dirs.Entry("zz_junk_%d" % i, None, bytes(rng.randrange(256) for _ in range(40)), junk=True))
         sub = dirs.gen_dir_model(rng, u, 1, reg=reg, bmc_style=True)[0]
